@@ -8,3 +8,5 @@ import EraVerif.Props.C11
 import EraVerif.Props.C12
 import EraVerif.Props.C08
 import EraVerif.Props.C04
+import EraVerif.Props.C13
+import EraVerif.Props.C19
